@@ -168,6 +168,16 @@ class FrameAnalysis:
                             if a is not None:
                                 out |= al(a)
                     return out
+                # a USER-SUPPLIED callable (a local / parameter bound to a callable, or a callable stored on self that is
+                # not a method): nothing is known about it - its result may be (a view of) any of its arguments
+                f_ = node.func
+                user = (isinstance(f_, ast.Name) and f_.id in env) or \
+                       (isinstance(f_, ast.Attribute) and isinstance(f_.value, ast.Name) and f_.value.id == "self")
+                if user:
+                    out = set()
+                    for a in list(node.args) + [k.value for k in node.keywords]:
+                        out |= al(a)
+                    return out
                 return set()  # library call / constructor / arithmetic helper: fresh (see module docstring)
             return set()  # literals, arithmetic, comparisons, comprehensions: fresh
 
